@@ -534,7 +534,7 @@ func mutate(r *tr.Rand, base []int, k int) []int {
 }
 
 func main() {
-	tr.Main("C12: LCS over every pair of lists of 3 symbols up to length 4 (quick) / 5 (thorough) with key-only equality and position payloads (which element is returned is observable), the same pairs up to length 3 / 4 under two equivalences coarser than key identity, an asymmetric test (key(a) <= key(b): pins the argument order of eq) and a non-reflexive one (== at NaN), plain == over 2 symbols to length 6 / 7, random pairs derived from a common base by edits (long common runs, alphabets of 2-5 symbols, lengths to 49) under all six tests; LIS and LNDS over every list of 4 symbols up to length 6 (quick) / 8 (thorough) under natural, reversed and two coarse-preorder key comparisons (key/2, key%3: distinct keys tie, payloads tell them apart), and up to length 5 / 8 under difference-valued comparisons of several magnitudes (a-b, 3(a-b), 7(b-a), MinInt/MaxInt) and the cmp.Ordered wrappers, random lists with runs of equal keys, nearly sorted and nearly reversed (lengths to 60 / 99) under all ten comparisons. Every input slice is a window into a larger array (five shapes: cells before, spare capacity after); the whole backing arrays are compared before/after each call and again after the returned slice has been overwritten up to its capacity (m/a flags). Round 4: the same line forms once more behind preludes (P lines: a recovered panic inside eq / cmp at the first call, mid-way, in the last row or at the very last call, a much larger call that runs to its end; postludes between the call and the look at its result; pools emptied before each); LCS of two views of ONE array (identical, either a prefix of the other, same end, nested, overlapping, disjoint) under all six tests; []string of pairs with equal 32-bit hashes (FNV-1/1a, CRC-32, Adler-32, 31/33-polynomials, sdbm) through LCS, LIS and LNDS, []uint64 around 2^53 and 2^63, ints above 2^53, nil inputs; run-length sweeps for LIS and LNDS (a run of exactly L, a lower run of L, one element in between; ascending, plateaus, staircases; natural and reversed): every L to 256, every fourth L to 600 plus the multiples of 64 and 100 (thorough: every L to 600 in every shape), sizes 2^k-1, 2^k, 2^k+1 to 1025 (2049). Round 5: LCS with BOTH inputs long -- every L in 0..300 against L, L+1, L-1 and 2L (either order) in two of seven shapes per pair (all equal; the same distinct elements, every element twice on the longer side; exactly one common element; random; derived from a common base; one side reversed; periodic -- thorough: all seven) under all six tests; a duplicate-free side of every length 1..100 (300) against the same sequence with ONE key twice (in place, a few places later, at either end), both argument orders; two views of one array of every length 0..300 (s and s[:k] in both orders, two adjacent halves); lines above 65 x 130 elements (S, T) are judged by the property alone with the reference table written on arrays and are not replayed on the model; LIS / LNDS of recipe-made inputs (G: ascending, descending, one plateau, plateaus of 256, sawtooth, pseudo-random, two interleaved runs; the last element above everything / a new minimum / in the middle / untouched) of every length to 150 and of exactly 2^15, 2^16-1, 2^16, 2^16+1 elements (thorough: also 2^8, 2^12, 2^15 +-1, every base and ending), records bounded (length, digest, positions as runs), optimum by an O(n log n) reference; calls back into the package from inside the case's own eq / cmp (P @j:...), complete or panicking inside and recovered there; the cmp.Ordered wrappers on []byte, []int16 and []float32 (both zeros, NaN, infinities), LCS on []byte, []bool, []float32, a 40-byte struct and pointers; LCSFunc / LISFunc / LNDSFunc on a 40-byte struct and on pointers to it (modes K, Q); one LCS input of exactly 2^15 and 2^16-1, 2^16, 2^16+1 elements against a thin one; every other int line through a named slice type. A case is non-trivial when an input contains a repeated key; distinct = distinct input lines.",
+	tr.Main("C12: ROUND 6 (round6.go): constructed LARGE inputs for LCS above 2^20 and 2^24 table cells (1100 x 2200 and 4100 x 4101 elements; thorough: lengths around the square roots of 2^20 .. 2^24 against the same length, one more, twice the length, and thin-against-long pairs) made of blocks of different elements so that the optimum is known from the construction -- as ++ junk, junk ++ as, a block in the middle, the shorter input around the middle of the longer or split k : n-k between its ends, every second element, long common prefix / suffix, one element inserted into a run of identical elements, x y x y against x y, one element doubled -- both argument orders, S lines of mode e (optimum = elements shared as multisets where the result reaches that bound, the table on arrays otherwise). LCS over every pair of lists of 3 symbols up to length 4 (quick) / 5 (thorough) with key-only equality and position payloads (which element is returned is observable), the same pairs up to length 3 / 4 under two equivalences coarser than key identity, an asymmetric test (key(a) <= key(b): pins the argument order of eq) and a non-reflexive one (== at NaN), plain == over 2 symbols to length 6 / 7, random pairs derived from a common base by edits (long common runs, alphabets of 2-5 symbols, lengths to 49) under all six tests; LIS and LNDS over every list of 4 symbols up to length 6 (quick) / 8 (thorough) under natural, reversed and two coarse-preorder key comparisons (key/2, key%3: distinct keys tie, payloads tell them apart), and up to length 5 / 8 under difference-valued comparisons of several magnitudes (a-b, 3(a-b), 7(b-a), MinInt/MaxInt) and the cmp.Ordered wrappers, random lists with runs of equal keys, nearly sorted and nearly reversed (lengths to 60 / 99) under all ten comparisons. Every input slice is a window into a larger array (five shapes: cells before, spare capacity after); the whole backing arrays are compared before/after each call and again after the returned slice has been overwritten up to its capacity (m/a flags). Round 4: the same line forms once more behind preludes (P lines: a recovered panic inside eq / cmp at the first call, mid-way, in the last row or at the very last call, a much larger call that runs to its end; postludes between the call and the look at its result; pools emptied before each); LCS of two views of ONE array (identical, either a prefix of the other, same end, nested, overlapping, disjoint) under all six tests; []string of pairs with equal 32-bit hashes (FNV-1/1a, CRC-32, Adler-32, 31/33-polynomials, sdbm) through LCS, LIS and LNDS, []uint64 around 2^53 and 2^63, ints above 2^53, nil inputs; run-length sweeps for LIS and LNDS (a run of exactly L, a lower run of L, one element in between; ascending, plateaus, staircases; natural and reversed): every L to 256, every fourth L to 600 plus the multiples of 64 and 100 (thorough: every L to 600 in every shape), sizes 2^k-1, 2^k, 2^k+1 to 1025 (2049). Round 5: LCS with BOTH inputs long -- every L in 0..300 against L, L+1, L-1 and 2L (either order) in two of seven shapes per pair (all equal; the same distinct elements, every element twice on the longer side; exactly one common element; random; derived from a common base; one side reversed; periodic -- thorough: all seven) under all six tests; a duplicate-free side of every length 1..100 (300) against the same sequence with ONE key twice (in place, a few places later, at either end), both argument orders; two views of one array of every length 0..300 (s and s[:k] in both orders, two adjacent halves); lines above 65 x 130 elements (S, T) are judged by the property alone with the reference table written on arrays and are not replayed on the model; LIS / LNDS of recipe-made inputs (G: ascending, descending, one plateau, plateaus of 256, sawtooth, pseudo-random, two interleaved runs; the last element above everything / a new minimum / in the middle / untouched) of every length to 150 and of exactly 2^15, 2^16-1, 2^16, 2^16+1 elements (thorough: also 2^8, 2^12, 2^15 +-1, every base and ending), records bounded (length, digest, positions as runs), optimum by an O(n log n) reference; calls back into the package from inside the case's own eq / cmp (P @j:...), complete or panicking inside and recovered there; the cmp.Ordered wrappers on []byte, []int16 and []float32 (both zeros, NaN, infinities), LCS on []byte, []bool, []float32, a 40-byte struct and pointers; LCSFunc / LISFunc / LNDSFunc on a 40-byte struct and on pointers to it (modes K, Q); one LCS input of exactly 2^15 and 2^16-1, 2^16, 2^16+1 elements against a thin one; every other int line through a named slice type. A case is non-trivial when an input contains a repeated key; distinct = distinct input lines.",
 		exec, func(g *tr.G) {
 			if g.Prop != "C12" {
 				return
@@ -647,5 +647,7 @@ func main() {
 			// round 5: two-sided sweeps, one repeated key, shared storage at every length, exact large
 			// sizes, re-entrant callbacks, more element types (round5.go)
 			round5(g)
+			// round 6: constructed large cases, above 2^20 and 2^24 table cells (round6.go)
+			genConstructed(g)
 		})
 }
